@@ -94,11 +94,65 @@ def _work(units):
     return acc.out()
 
 
+DEEP_SALTS = [None, "é", "S" * 70]
+
+
+def _deep(units):
+    """complete value families (mc/deepvals.py) located on a 64-group ruler (4096 groups for the short-string family),
+    as the only splitter and as the later-sorting / earlier-sorting one of two; and the position function itself on them"""
+    from .. import deepvals
+    from ..enum import collide
+
+    acc = progcheck.Acc()
+    fn = getattr(impl.binning, "deterministic_proba", None)
+    for salt, fam, chunk, mode in units:
+        if fam == "pairs":
+            # every ordered pair of a mid-size alphabet (near-twins included) as the values of two splitters
+            M = list(dict.fromkeys(collide.near_twin_values()[:40] + vals.SMALL + ["", "0", 0, 0.0, "00", "a", "b", "ab", "é", None, "None", True, "True", 1, "1", 1.0, "1.0", 10, "10", "1", "0"]))
+            for first, second in (("a", "b"), ("b", "a"), ("B", "a"), ("_b", "a"), ("a1", "a")):
+                for w in M:
+                    deepvals.check_family(acc, f"deep:pairs:{first},{second}", salt, (first, second), 256, M, {second: w})
+            continue
+        values = deepvals.family(fam, chunk)
+        ng = 4096 if fam == "str3" else 64  # (the cost of one evaluation grows with the number of groups)
+        if mode == "single":
+            deepvals.check_family(acc, f"deep:{fam}:single", salt, ("uid",), ng, values)
+        elif mode == "first":
+            deepvals.check_family(acc, f"deep:{fam}:first", salt, ("a", "z"), ng, values, {"z": "Z9"})
+        elif mode == "last":
+            deepvals.check_family(acc, f"deep:{fam}:last", salt, ("z", "a"), ng, values, {"a": "é0"})
+        elif mode == "proba" and fn is not None:
+            pre = salt or ""
+            for v in values:
+                acc.add("evaluations")
+                key = pre + str(v)
+                try:
+                    got = fn(key)
+                except Exception as e:  # noqa
+                    got = f"{type(e).__name__}: {e}"
+                want = sem.hash_k(key) / 2**32
+                if got != want:
+                    from ..common import short
+
+                    acc.violation({"kind": "proba", "text": short(key, 200) if len(key) < 200 else key, "observed": repr(got), "why": f"expected {want!r}"})
+                    break
+    return acc.out()
+
+
 def run(res, tier):
     orders = [p for k in (1, 2, 3) for p in permutations(NAMES, k)] + [p for ns in NAMES2 for p in permutations(ns)] + DUPLICATES
     units = [(s, o, w, tier) for s in SALTS for o in orders for w in weight_vectors()] + [(None, "COLLIDE", w, tier) for w in weight_vectors()] + [(None, "RECOMPILE", "eq64", tier), (None, "RECOMPILE", "123", tier)]
     for w in pmap(_work, permuted(units, "c12"), chunk=8):
         res.merge_worker(w)
+    from .. import deepvals
+
+    # quick: every family under the default salt as the only splitter + the position function; thorough: x 3 salts x 4 modes + pairs
+    deep = [(s_, f, c, m) for s_ in DEEP_SALTS for (f, c) in deepvals.units() for m in ("single", "first", "last", "proba")
+            if tier == "thorough" or (s_ is None and m in ("single", "proba"))]  # fmt: skip
+    deep += [(s_, "pairs", 0, "pairs") for s_ in (DEEP_SALTS if tier == "thorough" else [None])]
+    for w in pmap(_deep, permuted(deep, "c12deep"), chunk=1):
+        res.merge_worker(w)
+    res.set("deep_families", {f: deepvals.CHUNKS[f] for f in deepvals.FAMILIES})
     from ..common import hostile_runs
 
     hostile_runs(res, "mc.checks.c12", "_work", [[s_, list(o), "eq64", "quick"] for s_ in (None, "s", "é") for o in (("a",), ("b", "a"))] + [[None, "COLLIDE", "123", "quick"]])
